@@ -197,8 +197,12 @@ def _obs(stream):
     # saving and restoring the state right after the update is a no-op (a model may snapshot its streams at the start
     # of a replication): the draws are still those of the seed
     stream.restore_state(stream.save_state())
-    return [sd, stream.next_float().hex(), stream.next_float().hex(), stream.next_float().hex(),
-            "".join("1" if stream.next_bool() else "0" for _ in range(8)), stream.next_int(-5, 1000)]
+    obs = [sd, stream.next_float().hex(), stream.next_float().hex(), stream.next_float().hex(),
+           "".join("1" if stream.next_bool() else "0" for _ in range(8)), stream.next_int(-5, 1000)]
+    # a replication that is run again on the kept stream object: reset() replays the sequence of the CURRENT seed
+    stream.reset()
+    obs.append([stream.seed(), stream.next_float().hex()])
+    return obs
 
 
 def _obs_all(d):
@@ -356,7 +360,8 @@ def run_case(case):
         # the seed reported after the update is the seed of the sequence that is drawn
         for nm in names:
             f = MersenneTwister(exp_simple[nm][0])
-            if [f.next_float().hex() for _ in range(3)] != exp_simple[nm][1:4]:
+            if [f.next_float().hex() for _ in range(3)] != exp_simple[nm][1:4] or \
+                    exp_simple[nm][6] != [exp_simple[nm][0], exp_simple[nm][1]]:
                 out.fail("seed-draws-mismatch:simple", {"stream": nm, "obs": exp_simple[nm]})
                 break
         # sensitivity: the fallback seed depends on the original seed and on the replication number
@@ -398,7 +403,8 @@ def run_case(case):
                                          "want": want})
             got = res["obs"][nm][0]
             f = MersenneTwister(got if type(got) is int else want)
-            if [f.next_float().hex() for _ in range(3)] != res["obs"][nm][1:4]:
+            if [f.next_float().hex() for _ in range(3)] != res["obs"][nm][1:4] or \
+                    res["obs"][nm][6] != [res["obs"][nm][0], res["obs"][nm][1]]:
                 out.fail("seed-draws-mismatch:seeded", {"stream": nm, "obs": res["obs"][nm]})
         else:
             if res["exc"] is not None:
